@@ -142,7 +142,11 @@ inline DepsLogModel ParseDepsLog(const std::string& data, bool present = true) {
       uint32_t checksum;
       memcpy(&checksum, rec + size - 4, 4);
       if (checksum != ~(uint32_t)m.paths.size()) { m.clean = false; break; }
-      m.paths.push_back(std::string(rec, path_size));
+      std::string path(rec, path_size);
+      bool dup = false;
+      for (auto& q : m.paths) if (q == path) dup = true;
+      if (dup) { m.clean = false; break; }   // a path is recorded once: a second id for it is damage
+      m.paths.push_back(path);
     }
     m.records++;
     pos += 4 + size;
